@@ -48,14 +48,22 @@ structure Rule where
 
 abbrev P := Pool VerifiedName
 
+/-- What the scripted node does with the k-th accepted connection: refuse it, or place it on `shard` of
+`nr` shards whatever its source port. -/
+inductive Accept where
+  | refuse
+  | place (shard nr : Nat)
+
 structure Sim where
   pool : P
   names : List (String × Bool)
   sharded : Bool
-  n : Nat
+  n : Nat                       -- shards the node currently reports (S mode) / connections per host (H mode)
   rules : List Rule
   holdNew : Bool
   held : List Nat
+  script : List Accept := []    -- what the node does with the next accepted connections (then: by source port)
+  plain : Nat := 0              -- open futures that are immediate retries on the regular port
 
 def otherKs : VerifiedName := ⟨"zz_other", true⟩
 
@@ -94,35 +102,45 @@ def Sim.reply (s : Sim) (i : Nat) (k : VerifiedName) : Sim × Option (SrvReply V
 
 def Sim.ev (s : Sim) (e : Ev VerifiedName) : Sim := { s with pool := step s.pool e }
 
-/-- One `USE` of task `t` on connection `i`. -/
-def Sim.taskUse (s : Sim) (t i : Nat) (k : VerifiedName) : Sim :=
-  if (s.pool.net i).broken then s.ev (.taskUse t i .ack)
-  else
-    match s.reply i k with
-    | (s, some r) => s.ev (.taskUse t i r)
-    | (s, none) => (s.ev (.breakConn i)).ev (.taskUse t i .ack)
+/-- The node answers the oldest `USE` in flight on connection `i` (a broken connection fails it). -/
+def Sim.serveOne (s : Sim) (i : Nat) : Sim :=
+  match (s.pool.net i).queue with
+  | [] => s
+  | (_, k) :: _ =>
+    if (s.pool.net i).broken then s.ev (.serve i .ack)
+    else
+      match s.reply i k with
+      | (s, some r) => s.ev (.serve i r)
+      | (s, none) => (s.ev (.breakConn i)).ev (.serve i .ack)
+
+/-- The node answers everything in flight on `i`, oldest first. -/
+def Sim.drain : Nat → Sim → Nat → Sim
+  | 0, s, _ => s
+  | fuel + 1, s, i => if (s.pool.net i).queue.isEmpty then s else Sim.drain fuel (s.serveOne i) i
 
 def outcomeTok : Outcome → String
   | .ok => "ok"
   | .err e => "e:" ++ useErrLabel e
   | .panic => "PANIC"
 
-/-- `use_keyspace(names[i])` awaited. -/
+def Sim.isHeld (s : Sim) (i : Nat) : Bool := s.held.contains i && !(s.pool.net i).broken
+
+/-- `use_keyspace(names[i])` awaited: the task writes its `USE` on every snapshot connection, the node answers
+what is in flight on the connections it does not hold; if it holds one, the pool's timeout answers the caller
+and the `USE` stays in flight (it is answered when the node releases the connection, before anything written
+later: the queue is FIFO). -/
 def Sim.useKs (s : Sim) (k : VerifiedName) : Sim × String :=
   let tid := s.pool.tasks.length
   let s := s.ev (.useKs k)
   match findTask s.pool.tasks tid with
   | none => (s, "MODEL-BUG")
   | some t =>
-    if t.snapshot.any (fun i => s.held.contains i && !(s.pool.net i).broken) then
-      -- a held connection does not answer before the pool's timeout fires. Its `USE` stays in flight and is
-      -- served when the node releases it (connections are FIFO); in the model's trace that service is placed
-      -- just before the timeout (the atomic `taskUse` stands for submit+serve).
-      let s := t.snapshot.foldl (fun s i => s.taskUse tid i k) s
+    let s := t.snapshot.foldl (fun s i => s.ev (.taskSubmit tid i)) s
+    let s := t.snapshot.foldl (fun s i => if s.isHeld i then s else s.drain 32 i) s
+    if t.snapshot.any s.isHeld then
       let s := s.ev (.taskTimeout tid)
       (s, "e:RequestTimeout")
     else
-      let s := t.snapshot.foldl (fun s i => s.taskUse tid i k) s
       let s := s.ev (.taskFinish tid)
       match findTask s.pool.tasks tid with
       | some t => (s, match t.resp with | some o => outcomeTok o | none => "MODEL-STUCK")
@@ -139,28 +157,58 @@ def Sim.settle : Nat → Sim → Sim
     match s.pool.setting.find? (fun e => !s.held.contains e.1) with
     | none => s
     | some (i, k, _) =>
-      if (s.pool.net i).broken then Sim.settle fuel (s.ev (.ksSet i .ack))
-      else
-        match s.reply i k with
-        | (s, some r) => Sim.settle fuel (s.ev (.ksSet i r))
-        | (s, none) => Sim.settle fuel ((s.ev (.breakConn i)).ev (.ksSet i .ack))
+      let before := s.pool.opening
+      let s := if (s.pool.net i).broken then s.ev (.ksSet i .ack)
+        else
+          match s.reply i k with
+          | (s, some r) => s.ev (.ksSet i r)
+          | (s, none) => (s.ev (.breakConn i)).ev (.ksSet i .ack)
+      -- a requested-shard miss is dropped and retried at once on the regular port
+      let s := if s.pool.opening > before then { s with plain := s.plain + (s.pool.opening - before) } else s
+      Sim.settle fuel s
 
-/-- Resolve the pending open futures: the first connection to an empty pool comes through the regular port
-(the node picks the shard: the model takes the lowest missing one), the others through the shard-aware port. -/
+/-- Resolve the pending open futures. The pool asks for a specific shard (through the shard-aware port) when it
+knows the sharder, is not blocked and already has a connection; immediate retries use the regular port. The
+node follows its script (refuse / place on a given shard) and otherwise honours the requested shard (an
+unrequested connection lands on the lowest shard that still misses a connection). -/
 def Sim.openAll : Nat → Sim → Sim
   | 0, s => s
   | fuel + 1, s =>
     if s.pool.opening = 0 then s
     else
-      let missing := (List.range s.n).filter fun sh => s.pool.shardCount sh == 0 &&
+      let missing := (List.range s.pool.nShards).filter fun sh => s.pool.shardCount sh == 0 &&
         !(s.pool.setting.any fun e => (s.pool.net e.1).shard == sh)
-      let sh := if s.sharded then missing.headD 0 else 0
-      let sharder := if s.sharded then some s.n else none
-      let requested := s.sharded && !s.pool.conns.isEmpty
-      let i := s.pool.nextId
-      let s := s.ev (.opened sh sharder requested)
-      let s := if s.holdNew then { s with held := i :: s.held } else s
-      Sim.openAll fuel s
+      let want := missing.headD 0
+      let (isPlain, s) := if s.plain > 0 then (true, { s with plain := s.plain - 1 }) else (false, s)
+      let requested : Option Nat :=
+        if s.sharded && !isPlain && s.pool.perShard && s.pool.canUseShardAware && !s.pool.conns.isEmpty then some want
+        else none
+      match s.script with
+      | .refuse :: rest =>
+        let s := { s with script := rest }
+        let s := s.ev (.openFailed requested.isSome)
+        let s := if requested.isSome then { s with plain := s.plain + 1 } else s
+        Sim.openAll fuel s
+      | acc :: rest =>
+        let (sh, nr) := match acc with
+          | .place sh nr => (sh, nr)
+          | .refuse => (0, 1)
+        let i := s.pool.nextId
+        let before := s.pool.opening
+        let s := { s with script := rest, n := nr }
+        let s := s.ev (.opened sh (some nr) requested)
+        let s := if s.pool.opening ≥ before then { s with plain := s.plain + 1 } else s
+        let s := if s.holdNew then { s with held := i :: s.held } else s
+        Sim.openAll fuel s
+      | [] =>
+        let sh := if s.sharded then want else 0
+        let sharder := if s.sharded then some s.n else none
+        let i := s.pool.nextId
+        let before := s.pool.opening
+        let s := s.ev (.opened sh sharder requested)
+        let s := if s.pool.opening ≥ before then { s with plain := s.plain + 1 } else s
+        let s := if s.holdNew then { s with held := i :: s.held } else s
+        Sim.openAll fuel s
 
 def Sim.total (s : Sim) : Nat := s.n
 
@@ -170,7 +218,7 @@ def Sim.quiesce : Nat → Sim → Sim
   | rounds + 1, s =>
     let s := s.connErrors
     let s := s.settle 16
-    if s.pool.conns.length ≥ s.total then s
+    if s.pool.isFull then s
     else if !s.pool.needFilling then s
     else
       let s := s.ev .refill
@@ -250,7 +298,7 @@ def Sim.steps : List String → List String → Sim → List String → Option (
         | some i => Sim.steps rest (impl.drop 1) (s.ev (.breakConn i)) ("k" :: acc)
         | none => Sim.steps rest (impl.drop 1) s ("k-" :: acc)
     | "W" =>
-      let s := s.quiesce 3
+      let s := s.quiesce 8
       Sim.steps rest (impl.drop 1) s (s!"w{s.pool.conns.length}" :: acc)
     | "H" =>
       let s := s.connErrors
@@ -259,7 +307,29 @@ def Sim.steps : List String → List String → Sim → List String → Option (
       let s := s.settle 16
       let pending := s.pool.setting.any fun e => s.held.contains e.1 && !(s.pool.net e.1).broken
       Sim.steps rest (impl.drop 1) s ((if pending then "h" else "h-") :: acc)
-    | "G" => Sim.steps rest impl { s with holdNew := false, held := [] } acc
+    | "G" =>
+      -- the node releases what it held: everything in flight is answered, oldest first
+      let s := { s with holdNew := false, held := [] }
+      let s := (List.range s.pool.nextId).foldl (fun s i => s.drain 32 i) s
+      Sim.steps rest impl s acc
+    | "Y" =>
+      -- a user statement `USE names[i]` on the connection of shard `sh`
+      match arg.splitOn "," with
+      | [ni, shs] =>
+        match ni.toNat?, shs.toNat? with
+        | some ni, some sh =>
+          match s.verified ni with
+          | some (.ok k) =>
+            let target := s.pool.conns.find? fun i => !(s.pool.net i).broken && (s.pool.net i).shard == sh
+            match target with
+            | some i =>
+              let s := s.ev (.userUse i k)
+              let s := s.drain 32 i
+              Sim.steps rest (impl.drop 1) s ("y" :: acc)
+            | none => Sim.steps rest (impl.drop 1) s ("y!" :: acc)
+          | _ => none
+        | _, _ => none
+      | _ => none
     | "D" => Sim.steps rest impl { s with holdNew := true } acc
     | "X" => Sim.steps rest impl { s with rules := [] } acc
     | "L" => Sim.steps rest (impl.drop 1) s (s.list :: acc)
@@ -282,15 +352,28 @@ def parseNames (field : String) : Option (List (String × Bool)) :=
       | _, _ => none
     | _ => none
 
-def parseMode (m : String) : Option (Bool × Nat) :=
-  match (m.take 1).toString, (m.drop 1).toString.toNat? with
-  | "S", some n => if 1 ≤ n ∧ n ≤ 8 then some (true, n) else none
-  | "H", some n => if 1 ≤ n ∧ n ≤ 8 then some (false, n) else none
-  | _, _ => none
+def parseAccept (e : String) : Option Accept :=
+  if e == "x" then some .refuse
+  else match e.splitOn "/" with
+    | [a, b] => match a.toNat?, b.toNat? with
+      | some sh, some nr => if sh < nr ∧ nr ≤ 8 then some (.place sh nr) else none
+      | _, _ => none
+    | _ => none
+
+/-- `S<n>` / `H<n>`, optionally `@e.e.e` = what the node does with the first accepted connections. -/
+def parseMode (m : String) : Option (Bool × Nat × List Accept) :=
+  let (base, script) : String × Option (List Accept) := match m.splitOn "@" with
+    | [b] => (b, some [])
+    | [b, sc] => (b, (sc.splitOn ".").mapM parseAccept)
+    | _ => (m, none)
+  match (base.take 1).toString, (base.drop 1).toString.toNat?, script with
+  | "S", some n, some sc => if 1 ≤ n ∧ n ≤ 8 then some (true, n, sc) else none
+  | "H", some n, some sc => if 1 ≤ n ∧ n ≤ 8 ∧ sc.isEmpty then some (false, n, sc) else none
+  | _, _, _ => none
 
 def runPool (mode init names script impl : String) : String :=
   match parseMode mode, parseNames names with
-  | some (sharded, n), some names =>
+  | some (sharded, n, nodeScript), some names =>
     let initKs : Option (Option VerifiedName) :=
       if init == "-" then some none
       else match init.toNat? with
@@ -304,7 +387,7 @@ def runPool (mode init names script impl : String) : String :=
     | none => "bad-case"
     | some ks =>
       let pool : P := Pool.init sharded (if sharded then 1 else n) ks
-      let s : Sim := { pool, names, sharded, n, rules := [], holdNew := false, held := [] }
+      let s : Sim := { pool, names, sharded, n, rules := [], holdNew := false, held := [], script := nodeScript }
       -- `wait_until_initialized`: the first fill
       match Sim.steps ((script.splitOn ";").filter (· ≠ "")) (impl.splitOn ";") s [] with
       | some toks => ";".intercalate toks
